@@ -133,8 +133,9 @@ PROPS["C06"] = dict(
 )
 
 PROPS["C12"] = dict(
-    modules=["Sth.Props.C08"],
-    theorems=list(CORE_RL),
+    modules=["Sth.Props.C12"],
+    theorems=["Sth.Rate.C12_registered_is_current", "Sth.Rate.C12_release", "Sth.Rate.C12_signal", "Sth.Rate.C12_enabled",
+              "Sth.Rate.C12_lost_wakeup_witness", "Sth.Rate.C12_repaired_on_witness"],
     runs=[dict(engine="sched", quick=200, thorough=20000, extra=["-profile", "c12"], nontrivial=["writer-waited"])],
     shrink_budget=0,
     rule="1-2 writer threads (Put/Remove) on a Started store with burst rate 0 and a tiny measured flush rate (verif setter), so that "
@@ -143,4 +144,32 @@ PROPS["C12"] = dict(
          "the store's own flusher goroutine runs freely and its points are logged. Violation = a writer still parked on the notice "
          "after a flush completed after its wait began. Non-trivial = distinct schedule in which a writer entered the waiting path.",
     assumptions=["weak fairness of the flusher goroutine (it runs when signalled)", "flushes succeed"],
+)
+
+PROPS["C13"] = dict(
+    modules=["Sth.Props.C08"],
+    theorems=list(CORE_RL),
+    runs=[dict(engine="seq", quick=300, thorough=10000, extra=["-profile", "c13"], nontrivial=["freelist-nonempty", "pgc-relocated"])],
+    rule="C04-style traces (small files, overwrites, removals, flushes, reopen, GC cycles with relocation and deadlines); after every "
+         "mutating op the `acct` view lists the locations named by live index entries and the recorded locations (freelist pool + file + "
+         ".gc) of the REAL store; the driver checks on those views alone that the locations that stopped being current equal the newly "
+         "recorded ones (nothing for a new key, a rejected Put, a Remove of an absent key), nothing is recorded twice or while current, "
+         "nothing vanishes without a GC cycle, and a complete cycle consumes everything recorded before it; the model's own views are "
+         "compared too. Non-trivial = distinct trace with a non-empty freelist.",
+    assumptions=["sequential histories; the hand-over interleavings (freelist Put || Flush || ToGC) are exercised by the sched engine under C06",
+                 "crash loss of unflushed freelist entries is a space leak recorded as known finding D19 (not exercised here)"],
+)
+
+PROPS["C11"] = dict(
+    modules=["Sth.Props.C08"],
+    theorems=list(CORE_RL),
+    runs=[dict(engine="seq", quick=200, thorough=10000, extra=["-profile", "c11"], nontrivial=["c11-dead-primary-files", "c11-unreferenced-index-files"])],
+    rule="fixed-shape histories: fill several small files, remove or overwrite all (or all but 1-2) keys, flush, roll the files out of "
+         "current position, then 7 rounds of (primary GC, flush, index GC); from the REAL store's views at the mark the driver computes "
+         "which non-current primary files hold no live location and which non-current index files no bucket points into, and checks they "
+         "are truncated to zero or unlinked within 2 cycles, that no cycle increases the reported storage (measured at flushed states), "
+         "and that the last two rounds leave byte-identical directories (fixed point); all views are compared with the model. "
+         "Non-trivial = distinct history with at least one dead primary file or unreferenced index file at the mark.",
+    assumptions=["cycles are invoked synchronously (the timers that start them are not modelled)",
+                 "no-growth is measured at flushed states: the repaired collector flushes the primary before applying the freelist"],
 )
